@@ -94,7 +94,7 @@ def main():
         ],
         "checks": checks,
         "not_applicable": [],
-        "notes": "All 20 properties are claimed with runtime monitoring; exit 2 + INCONCLUSIVE is used for build/harness trouble and unmet observation thresholds, never a VIOLATION line. Known findings: /verif/known_findings.txt (all six defects found are repaired by fix: commits; no open finding).",
+        "notes": "All 20 properties are claimed with runtime monitoring; exit 2 + INCONCLUSIVE is used for build/harness trouble and unmet observation thresholds, never a VIOLATION line. Known findings: /verif/known_findings.txt (all seven defects found are repaired by fix: commits; no open finding).",
     }
     json.dump(m, open(os.path.join(ROOT, "MANIFEST.json"), "w"), indent=1)
     print("MANIFEST.json written:", len(checks), "checks; hook commits", hook_commits)
